@@ -56,7 +56,8 @@ def build(flavours, root=None):
 # ---------------------------------------------------------------- E1
 E1_EXPECT = {  # per the threads proposal: the cell at addr+offset is compared; 1 = not-equal, 2 = timed-out
     'w32o0 expA': 2, 'w32o0 expB': 1, 'w32o16 expA': 1, 'w32o16 expB': 2,
-    'w64o0 expA': 2, 'w64o0 expB': 1, 'w64o16 expA': 1, 'w64o16 expB': 2, 'no0': 0, 'no16': 0}
+    'w64o0 expA': 2, 'w64o0 expB': 1, 'w64o16 expA': 1, 'w64o16 expB': 2, 'no0': 0, 'no16': 0,
+    'w64o0 expHiB': 1, 'w64o0 expLoB': 1, 'w32o0 expA-again': 2}
 
 
 def run_e1(chk, d, be=False):
@@ -75,6 +76,10 @@ def run_e1(chk, d, be=False):
         raise mclib.MachineryError('E1 driver output incomplete: ' + out)
     chk.cov['e1_emission_probes'] = {k: {'returned': got[k], 'specified': E1_EXPECT[k]} for k in sorted(got)}
     groups = {'wait32': ('w32o0', 'w32o16'), 'wait64': ('w64o0', 'w64o16'), 'notify': ('no0', 'no16')}
+    for k in ('w64o0 expHiB', 'w64o0 expLoB', 'w32o0 expA-again'):
+        if got[k] != E1_EXPECT[k]:
+            chk.violation('emission|compare-width|%s' % k.split()[1], {'kind': 'program', 'probe': k, 'got': got[k], 'expected': E1_EXPECT[k], 'how_to_replay': 'python3 checks/c17.py quick'},
+                          'memory.atomic.%s compares the wrong number of bits: probe %s returned %d, specified %d (1 = not-equal, 2 = timed-out)' % ('wait64' if k.startswith('w64') else 'wait32', k, got[k], E1_EXPECT[k]))
     for name, (f0, f16) in groups.items():
         bad0 = [k for k in got if k.split()[0] == f0 and got[k] != E1_EXPECT[k]]
         bad16 = [k for k in got if k.split()[0] == f16 and got[k] != E1_EXPECT[k]]
@@ -289,6 +294,9 @@ def make_cases(tier):
     for exp, to, bits in itertools.product(('old', 'new'), (INF, FIN), (32, 64)):
         for addr, cnt, st in itertools.product((A, A2, B), (0, 1, 2, MAXCOUNT), (0, 1)):
             cs.append(([W(A, exp, to, bits), N(addr, cnt, st)], 2 if quick else 3, 1 if quick else 2))
+    # any negative timeout means "wait forever"
+    cs.append(([W(A, 'old', -5), N(A, 1, 0)], 2, 1))
+    cs.append(([W(A, 'old', -(2 ** 62), bits=64), N(A, 1, 1)], 2, 1))
     # 2W + 1N
     second = [(A, 'old', INF), (A, 'old', FIN), (A2, 'old', INF), (B, 'old', FIN), (A, 'new', INF)]
     for to1, (a2, exp2, to2), cnt, st in itertools.product((INF, FIN), second, (0, 1, 2, MAXCOUNT), (0, 1)):
